@@ -39,3 +39,19 @@ func TestRegressInactiveProofsShortOfTheirFees(t *testing.T) {
 		sendCase(tbT{t}, sp)
 	}
 }
+
+// F26: wallet.Restore saved the mint's keysets without their input fee; only the active keyset's fee is repaired at
+// the next start, so a restored wallet took the fee of a retired keyset for 0 (swap refused by the mint, too little
+// handed out with fees included).
+func TestRegressRestoredWalletKnowsFeesOfRetiredKeysets(t *testing.T) {
+	for i, sp := range []spec{
+		{Fees: []uint{1000, 0}, Amounts: [][]uint64{{512}, nil}, Amount: 511, IncludeFees: false, LateRotation: true, Restored: true},
+		{Fees: []uint{1000, 0}, Amounts: [][]uint64{{4, 8}, {1}}, Amount: 8, IncludeFees: true, Restored: true},
+		{Fees: []uint{500, 100, 0}, Amounts: [][]uint64{{2, 2}, {4, 16}, {1}}, Amount: 20, IncludeFees: true, Restored: true},
+	} {
+		sp.CaseSeed = uint64(i)
+		sp.RestartFee = -1
+		rec.NonTrivial(fmt.Sprint("regress_restored_wallet_retired_keyset_fee_", i))
+		sendCase(tbT{t}, sp)
+	}
+}
